@@ -337,7 +337,7 @@ def c20(ctx):
     ctx.assumptions += [
         "kernel semantics as in specs/Privs.tla (Linux setuid/setgid/initgroups, futimens ownership rule)",
         "supplementary groups are judged only with initgroups on and a configured, resolvable user",
-        "USR2 generations are covered by C14's real-process runs, not here",
+        "the workers of a USR2-started master are observed in the server runs tagged *usr2",
         "real ids: root, www-data (33), nobody (65534), uid 4242 without passwd entry"]
 
 
